@@ -784,6 +784,34 @@ def handle (case impl : List String) : String :=
   | ["n2bin", "rspfile"] =>
     let want := "code=0 content=" ++ hexOfBytes (bytesOfString "-a  in1 in2 \"q\" $x")
     want ++ mons [("rspfileExact", " ".intercalate impl == want)]
+  | ["n2bin", "keepgoing", k, n, g, j] =>
+    -- C05 through parse_args: `n` independent failing steps, `g` independent good ones, budget -k `k`
+    -- (1 when not given), -j `j`.  Once the budget is reached no further command is started: at most
+    -- the j - 1 commands already running besides the one whose failure exhausted it; while it is not
+    -- reached everything else is still brought up to date.
+    let fld := fun (name : String) => (impl.findSome? (fun t => if t.startsWith (name ++ "=") then (t.drop (name.length + 1)).toString.toNat? else none))
+    -- without -k the property names no budget (the usage text says "default: 1", parse_args leaves
+    -- failures_left = None, i.e. no limit): any number of the failing commands may start then
+    let nn0 := n.toNat?.getD 0
+    let given := k != "-"
+    let kk := if given then k.toNat?.getD 1 else nn0 + 1
+    let nn := n.toNat?.getD 0; let gg := g.toNat?.getD 0; let jj := j.toNat?.getD 1
+    let started := fld "started"; let good := fld "good"; let code := fld "code"
+    let lo := if given then min kk nn else 0
+    let hi := min nn (kk + jj - 1)
+    " ".intercalate impl ++ mons [
+      ("cliBudgetRespected", match started with | some s => s ≤ hi | none => false),
+      ("cliBudgetUsed", match started with | some s => lo ≤ s | none => false),
+      ("cliRestStillBuilt", !given || kk ≤ nn || good == some gg),
+      ("cliExitReflectsFailure", code == some (if nn == 0 then 0 else 1))]
+  | ["n2bin", "jobs", j, n, pool] =>
+    -- C04 through parse_args: never more than -j commands at once, nor more than the pool's depth
+    let fld := fun (name : String) => (impl.findSome? (fun t => if t.startsWith (name ++ "=") then (t.drop (name.length + 1)).toString.toNat? else none))
+    let jj := j.toNat?.getD 1; let nn := n.toNat?.getD 0
+    let bound := if pool == "console" then 1 else match pool.toNat? with | some 0 => jj | some d => min d jj | none => jj
+    " ".intercalate impl ++ mons [
+      ("cliJobsBounded", match fld "peak" with | some p => 1 ≤ p && p ≤ bound | none => false),
+      ("cliAllRan", fld "ran" == some nn && fld "code" == some 0)]
   | ["n2bin", "cli", _] =>
     -- any command line: the outcome is n2's to choose (help text, a diagnostic, a build), but it is an
     -- exit status of 0 or 1 and never a panic
